@@ -48,6 +48,7 @@ class Gen:
         self.json_safe = False
         self._forced = None
         self._reserved = None
+        self.letter_suffixes = False   # type names ending in letters (the schema-repository checks)
         self.mapping_views = False     # maps now and then offered as read-only mapping views (validation / writing checks only)
         self.unknown_logical = True    # now and then an annotation no implementation knows ("x-custom"): to be ignored
         self.overlap_bias = 0.07       # probability that a union is one of records with nested field sets
@@ -58,7 +59,8 @@ class Gen:
     # ------------------------------------------------------------------ schemas (IR)
     def fresh(self, prefix):
         self.counter += 1
-        return "%s%d" % (prefix, self.counter)
+        # names do not always end in a digit (file names are derived from them by the loader)
+        return "%s%d%s" % (prefix, self.counter, self.r.choice(["", "", "", "s", "a", "vc", "avsc"]) if self.letter_suffixes else "")
 
     def fresh_named(self, prefix, tns):
         """A simple name for a new named type in namespace tns: now and then the simple name of an existing type of another namespace."""
